@@ -27,8 +27,8 @@ PROFILES = {
     'order':     dict(BASE, pConsume=120, pGuardCancel=50, pGuardIssue=30, wReact=8, wQuery=5, wUpdate=6),
     'order-lo':  dict(BASE, pConsume=25, wReact=8, wQuery=5, wUpdate=6),
     'serial':    dict(BASE, wSaveLoad=35, pGuardCancel=40, pGuardIssue=30, wExitEnter=2, wReset=1),
-    'plans':     dict(BASE, planDump=1, wPlanEdit=4, wExtStatus=2, pSucceed=180, pFail=40, pPlanInCb=40, pHeadStatus=60, pGuardCancel=40, pGuardIssue=20, pIssue=15, maxBatch=1, kinds=0x7f),
-    'plans-edit': dict(BASE, planDump=1, wPlanEdit=12, wExtStatus=1, pSucceed=60, pFail=10, pPlanInCb=150, pGuardCancel=20, pGuardIssue=10, pIssue=10, maxBatch=1),
+    'plans':     dict(BASE, pNoPayload=300, planDump=1, wPlanEdit=4, wExtStatus=2, pSucceed=180, pFail=40, pPlanInCb=40, pHeadStatus=60, pGuardCancel=40, pGuardIssue=20, pIssue=15, maxBatch=1, kinds=0x7f),
+    'plans-edit': dict(BASE, pNoPayload=300, planDump=1, wPlanEdit=12, wExtStatus=1, pSucceed=60, pFail=10, pPlanInCb=150, pGuardCancel=20, pGuardIssue=10, pIssue=10, maxBatch=1),
     'utility':   dict(BASE, kinds=0x31, pGuardCancel=30, pGuardIssue=30, pIssue=40, maxBatch=2, wReset=2, wImmediate=4),
     'utility-hostile': dict(BASE, kinds=0x31, palette=1, pGuardCancel=0, pGuardIssue=0, pIssue=20, maxBatch=1, wReset=2, wImmediate=6),
     'utility-fine': dict(BASE, kinds=0x31, palette=2, fineUtil=1, pGuardCancel=0, pGuardIssue=0, pIssue=20, maxBatch=1, wReset=2, wImmediate=6),
@@ -44,6 +44,7 @@ PROFILES = {
     'copies':    dict(BASE, copies=40, pIssue=0, pGuardCancel=0, pGuardIssue=0, maxBatch=3, wReset=1, wExitEnter=1, wImmediate=3),
     'c15-core':  dict(BASE, kinds=0x4f, pGuardIssue=0, pGuardCancel=80, pIssue=40, maxBatch=3, pendq=0, wReset=1, wExitEnter=1, wQuery=1, pConsume=40, wfEvery=0),
     'c15-utility': dict(BASE, kinds=0x7f, pGuardIssue=0, pGuardCancel=80, pIssue=40, maxBatch=3, pendq=0, wReset=1, wExitEnter=1, wQuery=1, pConsume=40, wfEvery=0),
+    'c15-guards': dict(BASE, kinds=0x4f, pGuardIssue=120, pGuardCancel=40, pIssue=30, maxBatch=2, pendq=0, wReset=1, wExitEnter=1, wQuery=1, pConsume=30, wfEvery=0, wImmediate=4),
     'c15-plans': dict(BASE, kinds=0x4f, pGuardIssue=0, pGuardCancel=60, pIssue=20, maxBatch=2, pendq=0, wReset=1, wExitEnter=3, wQuery=1, pConsume=30, wfEvery=0, wPlanEdit=4, wExtStatus=2, pSucceed=180, pFail=40, pPlanInCb=40, pHeadStatus=60),
     'payload-plans': dict(BASE, planDump=1, wPlanEdit=5, wExtStatus=2, pSucceed=300, pFail=20, pPlanInCb=60, pGuardCancel=30, pGuardIssue=20, pIssue=15, maxBatch=2, pNoPayload=350, kinds=0x7f),
     'payload':   dict(BASE, pGuardCancel=60, pGuardIssue=100, pIssue=80, maxBatch=4, pNoPayload=200),
@@ -541,12 +542,14 @@ def c15_engine(prop, tier, seed):
         dict(name='core', fixed=(), profile='c15-core', strategies=['Composite', 'Resumable', 'Selectable']),
         dict(name='utility', fixed=('UTILITY_THEORY',), profile='c15-utility', strategies=shp.STRATS),
         # plans kept on: plan execution must not depend on payload type (the plan executor exists once per payload flavour) or on the other switches
+        # guards that substitute without cancelling (rounds that change nothing): the round bookkeeping exists once per TRANSITION_HISTORY setting
+        dict(name='guards', fixed=(), profile='c15-guards', strategies=['Composite', 'Resumable', 'Selectable'], nshape=2 if tier == 'quick' else 4, no_subst=True),
         dict(name='plans', fixed=('PLANS',), profile='c15-plans', strategies=['Composite', 'Resumable', 'Selectable'], nshape=2 if tier == 'quick' else 4),
     ]
     jobs = []; meta = {}
     for fam in families:
         shapes_ = []
-        fixed = {'core': ['k_ortho_root', 'k_ortho_leafs', 'k_deep', 'k_ortho_wide9'], 'plans': ['k_ortho_root', 'k_headless', 'k_deep']}.get(fam['name'], ['k_util_ortho', 'k_compo_all', 'k_select_nested'])
+        fixed = {'core': ['k_ortho_root', 'k_ortho_leafs', 'k_deep', 'k_ortho_wide9'], 'plans': ['k_ortho_root', 'k_headless', 'k_deep'], 'guards': ['k_deep', 'k_ortho_root', 'k_compo_all']}.get(fam['name'], ['k_util_ortho', 'k_compo_all', 'k_select_nested'])
         for i in range(fam.get('nshape', nshape)):
             # every (activation, reaction order) combination appears among the first four programs
             cfg = dict(shp.DEFAULT_CFG); cfg['manual'] = i % 2; cfg['bottomup'] = ((i + 1) // 2) % 2
@@ -565,6 +568,7 @@ def c15_engine(prop, tier, seed):
             # config options and build axes on the all-on configuration
             allon = (tuple(1 for _ in FEATURES), 0)
             for extra_cfg, lab in (({'subst': 7}, 'subst7'), ({'taskcap': 40}, 'taskcap+'),):
+                if lab == 'subst7' and fam.get('no_subst'): continue      # substituting guards: behaviour legitimately depends on the limit
                 sj2 = dict(sj); sj2['cfg'] = dict(sj['cfg'], **extra_cfg)
                 jobs.append((sj2, 'clang', c15_defs(allon, {}), True, 'allon|' + lab, rseed, T['steps'], fam['profile']))
             nodbg = (tuple(0 if f == 'DEBUG_STATE_TYPE' else 1 for f in FEATURES), 0)
